@@ -5,13 +5,16 @@ U_TxIns == << {<<0, 0>>}, {<<1, 0>>}, {<<1, 1>>}, {<<0, 2>>}, {<<0, 1>>} >>
 U_TxNOut == << 2, 1, 1, 1, 1 >>
 U_TxFee == << 5000, 0, 2000, 300, 1000 >>
 U_TxVSize == << 150, 100, 120, 100, 100 >>
-U_TxSize == << 150, 100, 126, 106, 100 >>
+U_TxSize == << 150, 100, 127, 106, 100 >>
 U_TxRbf == << FALSE, FALSE, FALSE, FALSE, TRUE >>
 U_TxCls == << "ok", "ok", "ok", "ok", "ok" >>
+U_TxLock == << "none", "none", "none", "none", "none" >>
 U_TxWit == << FALSE, FALSE, TRUE, TRUE, FALSE >>
-U_TxWeight == << 600, 400, 477, 397, 400 >>
+U_TxWeight == << 600, 400, 478, 397, 400 >>
 U_TxSigCost == << 0, 0, 0, 0, 0 >>
 U_SlotParent == << 0 >>
 U_Script == <<  >>
-U_Policies == << [maxw |-> 3000000, minw |-> 0, prio |-> 0, minfree |-> 1000], [maxw |-> 1780, minw |-> 0, prio |-> 0, minfree |-> 0], [maxw |-> 4000000, minw |-> 1330, prio |-> 200000, minfree |-> 12000] >>
+U_Policies == << [maxw |-> 3000000, minw |-> 0, prio |-> 0, minfree |-> 1000], [maxw |-> 1876, minw |-> 0, prio |-> 0, minfree |-> 0], [maxw |-> 4000000, minw |-> 1426, prio |-> 200000, minfree |-> 12000] >>
+U_Variants == << [pol |-> 1, pay |-> "none", clk0 |-> "far", clk1 |-> "far"], [pol |-> 2, pay |-> "p2pkh", clk0 |-> "near", clk1 |-> "far"], [pol |-> 3, pay |-> "p2sh", clk0 |-> "far", clk1 |-> "near"], [pol |-> 1, pay |-> "p2pkh", clk0 |-> "near", clk1 |-> "near"], [pol |-> 2, pay |-> "p2wpkh", clk0 |-> "far", clk1 |-> "far"] >>
+U_CbWeight == [none |-> 300, p2pkh |-> 396, p2sh |-> 388, p2wpkh |-> 384]
 ====
